@@ -33,6 +33,17 @@ def run(ctx, clause, scenarios, nontrivial=nontrivial_default, names_for=None, w
                 jobs.append((sc, d, "%s-%d-%s%s" % (ctx.pid, i, d, "-r%d" % rep if rep else ""), nm, ww))
     def one(j):
         sc, d, rid, nm, w = j
+        if sc.get("perturb"):
+            # schedule perturbation from outside: strace holds a thread at the chosen system calls
+            k = int(rid.rsplit("-r", 1)[1]) if "-r" in rid and rid.rsplit("-r", 1)[1].isdigit() else 0
+            inj = sc["perturb"][k % len(sc["perturb"])]
+            o = nsplane.run_one(binary, sc, d, rid, names=nm, workers=w, strace={"trace": "mkdir,mknodat,symlink", "inject": [inj]} if inj else None)
+            if o["_run"].get("trace"):
+                try:
+                    os.unlink(o["_run"]["trace"])
+                except OSError:
+                    pass
+            return o
         return nsplane.run_one(binary, sc, d, rid, names=nm, workers=w)
     obs = runner.pmap(one, jobs)
     if extra_runs:
